@@ -33,7 +33,8 @@ open("/verif/checks_config.py", "w").write(src)
 # known findings
 ka = json.load(open("/verif/known_findings.json")); kb = json.load(open(W + "/known_findings.json"))
 for k in kb.get("known", []):
-    if k not in ka["known"]:
+    same = [x for x in ka["known"] if x.get("property") == k.get("property") and x.get("class") == k.get("class")]
+    if not same:
         ka["known"].append(k); print("known +", k.get("property"), k.get("class"))
 for k in kb.get("fixed", []):
     if k not in ka["fixed"]:
